@@ -450,6 +450,23 @@ def oracle_system(sp, q, p):
         bad.append((f"{cls}.dh_dpos", f"dh_dpos = {v['dh_dpos'].tolist()} != dh1_dpos + dh2_dpos = {(v['dh1_dpos'] + v['dh2_dpos']).tolist()}"))
     if float(np.max(np.abs(v["dh_dmom"] - v["dh2_dmom"]))) > 1e-12 * (1 + float(np.max(np.abs(v["dh_dmom"])))):
         bad.append((f"{cls}.dh_dmom", "dh_dmom != dh2_dmom"))
+    # every evaluation must equal the true derivative: repeated evaluation on ONE state (in the order an
+    # integrator uses the methods), on a copy and after the other methods were called must not change a value
+    shared = ChainState(pos=q.copy(), mom=p.copy(), dir=1)
+    for rep in range(3):
+        st = shared if rep < 2 else shared.copy()
+        for m in ("dh1_dpos", "h1", "dh2_dpos", "dh2_dmom", "h2", "dh_dpos", "dh_dmom", "h", "dh1_dpos"):
+            w = getattr(system, m)(st)
+            w = float(w) if m in ("h1", "h2", "h") else np.array(w, dtype=float)
+            ref = v[m]
+            if float(np.max(np.abs(w - ref))) > 1e-12 * (1 + float(np.max(np.abs(ref)))):
+                bad.append((f"{cls}.{m} repeated evaluation",
+                            f"{cls}.{m} evaluation {rep + 1} on the same state{' (copy)' if rep == 2 else ''} = "
+                            f"{np.asarray(w).tolist()} differs from the first evaluation {np.asarray(ref).tolist()}"))
+                break
+        else:
+            continue
+        break
     h1d, h2d = r.h_doc(q, p)
     if not common.close(v["h1"], h1d, 1e-8, 1e-9):
         bad.append((f"{cls}.h1", f"h1 = {v['h1']} but documented formula gives {h1d}"))
@@ -587,9 +604,14 @@ def replay_corpus(ctx):
     for f in sorted((common.VERIF / "corpus" / PROP).glob("*.json")):
         obj = json.loads(f.read_text())
         ctx.count("corpus")
-        if replay(ctx, obj):
+        try:
+            bad, _ = oracle_system(obj["spec"], obj["q"], obj["p"])
+            now = "; ".join(t for _, t in bad)
+        except Exception as e:  # noqa: BLE001
+            bad, now = [("exception", "")], f"{type(e).__name__}: {e}"
+        if bad:
             keep = {k: v for k, v in obj.items() if k not in ("property", "kind", "signature", "what", "how_to_run")}
-            ctx.violation(obj.get("signature", f.name), f"corpus case {f.name} fails: {obj.get('what', '')[:300]}", keep)
+            ctx.violation(bad[0][0] + " (corpus input)", f"corpus input {f.name} fails now: {now[:400]}", keep)
 
 
 LEVEL_TEXT = (
